@@ -19,7 +19,7 @@ ID = 'C17'
 CASE_TYPE = 'C17.case'
 EXTRA_IMPORTS = 'From PJ Require Import Model.Bind Lemmas.BindL.\n'
 RULE = ('all signatures of 0..3 (quick) / 0..4 (thorough) parameters over positional-or-keyword / keyword-only kinds x defaults x '
-        '{no context, context parameter by name at each position} x {function, coroutine, class-based view method (own, inherited from a base view, @staticmethod)} (+ the same function registered a second time without the context designation and served first) (+ an exclusion predicate shared by the validator and the schema extractor, selecting each non-empty subset of the defaulted parameters, by name, by the type of the default or by the absence of an annotation); for each the OpenAPI '
+        '{no context, context parameter by name at each position} x {function, coroutine, class-based view method (own, inherited from a base view, @staticmethod)} (+ the same function registered a second time without the context designation and served first) (+ an exclusion predicate shared by the validator and the schema extractor, selecting each non-empty subset of the defaulted parameters, by name, by the type of the default, by the absence of an annotation or by a marker in Annotated metadata); for each the OpenAPI '
         '3.0 / 3.1 request schema and the OpenRPC params list are REALLY generated (pydantic extractor) and their properties / required '
         'read out; every params object over subsets of (parameter names + one undocumented name + the context name) is dispatched. '
         'distinct = distinct (signature, context, kind); non-trivial = the signature has a parameter')
@@ -68,7 +68,7 @@ def generate(seed, tier):
                     for r in range(1, len(dflt) + 1):
                         for xs in itertools.combinations(dflt, r):
                             cases.append({'sig': sig, 'ctx': ctx, 'kind': kind, 'xs': list(xs),
-                                          'xmode': ('default', 'name', 'unannotated')[len(cases) % 3]})
+                                          'xmode': ('default', 'name', 'unannotated', 'annotated')[len(cases) % 4]})
                 if kind == 'view' and sig:
                     # a handler parameter that merely shares the name of the view's context ('ctx'): an ordinary parameter
                     ren = [('ctx',) + tuple(sig[0][1:])] + [tuple(p) for p in sig[1:]]
@@ -80,12 +80,20 @@ class Inject(str):
     pass
 
 
+class Injected:
+    """Marker object placed in Annotated[...] metadata."""
+
+
 def predicate(case):
     xs = tuple(case.get('xs') or ())
     if not xs:
         return None
     if case.get('xmode') == 'default':
         return lambda name, annotation, default: isinstance(default, Inject)
+    if case.get('xmode') == 'annotated':
+        # dependency-injection marker carried in Annotated metadata: x: Annotated[Any, Injected()]
+        return lambda name, annotation, default: (typing.get_origin(annotation) is typing.Annotated
+                                                  and any(isinstance(m, Injected) for m in typing.get_args(annotation)[1:]))
     if case.get('xmode') == 'unannotated':
         # "whatever carries no annotation is injected": looks at the RAW annotation of the parameter
         return lambda name, annotation, default: annotation is inspect.Parameter.empty
@@ -103,11 +111,13 @@ def build(case):
                 parts.append('*')
                 star = True
             ann = ': Any' if (case.get('xmode') == 'unannotated' and n not in xs and n != case.get('ctx')) else ''
+            if case.get('xmode') == 'annotated' and n in xs:
+                ann = ': Annotated[Any, INJECTED]'
             parts.append('%s%s%s' % (n, ann, (' = INJ' if (n in xs and case.get('xmode') == 'default') else ' = 0') if d else ''))
         params = ', '.join(parts)
     is_async = case['kind'] == 'coroutine'
     disp = (AsyncDispatcher if is_async else Dispatcher)()
-    ns = {'ViewMixin': ViewMixin, 'INJ': Inject('inj'), 'Any': typing.Any}
+    ns = {'ViewMixin': ViewMixin, 'INJ': Inject('inj'), 'Any': typing.Any, 'Annotated': typing.Annotated, 'INJECTED': Injected()}
     if case['kind'] == 'view-inherited':
         # the handler is defined in a base view; the registered view only inherits it
         exec('class B(ViewMixin):\n    def __init__(self, ctx=None):\n        pass\n    def f(this%s):\n        return 1\n'
